@@ -7,9 +7,9 @@ Contract evaluated on the REAL functions, for input text s, dialect d, error lev
   (2) sqlglot.parse(s, read=d, error_level=L)        returns, or raises one of ALLOWED                    [phase parse]
   (3) tree.sql(dialect=w) for every non-None tree returned by (2), w in {d, "", "duckdb"}
                                                      returns, or raises one of ALLOWED                    [phase generate]
-  (5) sqlglot.transpile(s, read=d, error_level=first requested level) (identity target) returns, or raises one of
+  (4) sqlglot.transpile(s, read=d, error_level=first requested level) (identity target) returns, or raises one of
       ALLOWED, within the same budgets (violations are filed under phase parse / generate by where they arose)
-  (4) termination -- three layers, the first is the contract, the other two keep the harness alive:
+  (5) termination -- three layers, the first is the contract, the other two keep the harness alive:
       a. step budget (not wall clock): Parser._advance and TokenizerCore._advance are wrapped (class attributes are
          monkeypatched from this module) and count calls.  Parser steps of one parse call must stay
          <= 2000 + 200*n^2, n = number of tokens; tokenizer steps of one tokenize/parse call must stay
@@ -346,7 +346,7 @@ def check_item(item):
                 elif not isinstance(val2, ALLOWED):
                     viol.append((leak_key(val2, "generate"),
                                  f"tree.sql(dialect={w!r}) raised {type(val2).__name__}: {str(val2)[:120]}", inp2))
-    # (2+3 through the public one-shot entry point) sqlglot.transpile, identity target, first requested level
+    # (4) = (2)+(3) through the public one-shot entry point: sqlglot.transpile, identity target, first requested level
     lv = levels[0]
     st, val = guarded(lambda: sqlglot.transpile(sql, read=dialect or None, error_level=LEVEL[lv]), p_lim, 2 * t_lim)
     n_tr = 1
@@ -626,6 +626,7 @@ def run(tier, seed):
     n_tok = n_parse = n_gen = n_tr = 0
     nontrivial = set()
     killed = 0
+    worst_p = worst_t = 0.0
     for item, r in zip(work, res):
         sql, dialect, levels = item
         if r == KILLED:
@@ -635,7 +636,10 @@ def run(tier, seed):
                    {"sql": sql, "dialect": dialect, "levels": list(levels), "phase": "any"})]
             nt = True
         else:
-            (a, b, c, t_), nt, vs, _ = r
+            (a, b, c, t_), nt, vs, (mt_, tl_, mp_, pl_) = r
+            if not any(k.startswith("c05:hang:") for k, _, _ in vs):
+                worst_p = max(worst_p, mp_ / pl_)
+                worst_t = max(worst_t, mt_ / tl_)
             n_tok += a
             n_parse += b
             n_gen += c
@@ -667,7 +671,8 @@ def run(tier, seed):
         "exhaustive": True,
         "inputs": len(items),
         "input_families": stats,
-        "calibration": calib,
+        "calibration": dict(calib, max_parser_budget_fraction_any_non_hang_input=round(worst_p, 4),
+                            max_tokenizer_budget_fraction_any_non_hang_input=round(worst_t, 4)),
         "killed_by_watchdog": killed,
         "samples": [list(map(str, items[i][:2])) for i in (0, len(items) // 3, len(items) // 2, len(items) - 1)],
         "violations": violations,
